@@ -603,6 +603,9 @@ def refused_requests_cases(rng):
         # check_files: "User-provided forcefield file does not exist" (with and without a usable --usernames)
         cases.append((f"userff-file-missing[{tag}]", "check_files", [*ffopt(ff), "--userff=@DIR@/nope.dat"], {}))
         cases.append((f"userff-file-missing[{tag},with-usernames]", "check_files", [*ffopt(ff), "--userff=@DIR@/nope.dat", "--usernames=@DIR@/user.names"], {"user.names": builtin_ff_file(f"{own}.names")}))
+        # Forcefield.__init__: an unusable user parameter file - a row cut short (residue, atom, charge; radius missing),
+        # here for a residue no structure contains, so that nothing downstream (the charge guard) can notice it
+        cases.append((f"userff-truncated-row[{tag}]", "Forcefield.__init__", [*ffopt(ff), "--userff=@DIR@/user.dat", "--usernames=@DIR@/user.names"], {"user.dat": user_ff_text(own) + "XXX  Q1  0.5\n", "user.names": builtin_ff_file(f"{own}.names")}))
         # check_files: "Unable to find ligand file"
         cases.append((f"ligand-file-missing[{tag}]", "check_files", [*ffopt(ff), "--ligand=@DIR@/nope.mol2"], {}))
         cases.append((f"ligand-file-missing[{tag},with-userff]", "check_files", [*ffopt(ff), "--userff=@DIR@/user.dat", "--usernames=@DIR@/user.names", "--ligand=@DIR@/nope.mol2"], {"user.dat": user_ff_text(own), "user.names": builtin_ff_file(f"{own}.names")}))
